@@ -804,6 +804,38 @@ def _restored_containers(prog, ci, owner, lfn, var, archives, rel):
     return struct_ob("restored-container", owner, not bad, "; ".join(bad[:2]), rel, lfn.lineno, slots={"list_attributes_restored": n}, tier="E")
 
 
+def _restored_types(prog, ci, owner, lfn, var, rel):
+    """`chain.a = int(D[k])` where the constructor gives `a` a float (a float literal, or a parameter whose default is one): the
+    reloaded value is truncated."""
+    floats = {}
+    for c in prog.mro(ci):
+        init = c.methods.get("__init__")
+        if init is None or not init.args.args:
+            continue
+        sn = init.args.args[0].arg
+        params = init.args.args[1:] + init.args.kwonlyargs
+        defaults = dict(zip([a.arg for a in init.args.args][len(init.args.args) - len(init.args.defaults):], init.args.defaults))
+        defaults.update({a.arg: d for a, d in zip(init.args.kwonlyargs, init.args.kw_defaults) if d is not None})
+        for st in ast.walk(init):
+            if isinstance(st, ast.Assign) and len(st.targets) == 1 and isinstance(st.targets[0], ast.Attribute) \
+                    and isinstance(st.targets[0].value, ast.Name) and st.targets[0].value.id == sn:
+                v = st.value
+                if isinstance(v, ast.Name) and v.id in defaults:
+                    v = defaults[v.id]
+                if isinstance(v, ast.Constant) and isinstance(v.value, float):
+                    floats.setdefault(st.targets[0].attr, U(v))
+    lossy, n = [], 0
+    for st in ast.walk(lfn):
+        if isinstance(st, ast.Assign) and len(st.targets) == 1 and isinstance(st.targets[0], ast.Attribute) \
+                and isinstance(st.targets[0].value, ast.Name) and st.targets[0].value.id == var:
+            n += 1
+            a = st.targets[0].attr
+            if a in floats and isinstance(st.value, ast.Call) and isinstance(st.value.func, ast.Name) and st.value.func.id == "int":
+                lossy.append(f"line {st.lineno}: `{U(st)[:70]}` reads the float {a} (constructor: {floats[a]}) back through int()")
+    return struct_ob("restored-type", owner, not lossy, "; ".join(lossy[:2]), rel, lfn.lineno, slots={"restores_checked": n, "float_attributes": len(floats)},
+                     tier="E")
+
+
 def _save_writes(owner, sfn, rel):
     """Every way through save that ends normally has written the archive (`savez` / `savez_compressed` with the collected items)."""
     # a local that holds the writer (`write = savez_compressed if compressed else savez`)
@@ -860,6 +892,11 @@ def run(prog, tier):
                     "load() rebuilds the object through the constructor; the limit-enforcing slot must be bound on that path as well")
     obs, info = [], []
     obs.extend(shared)
+    # "continues like the saved one, given the same generator state" only means something if every draw a step makes comes from the
+    # generator the sampler holds: the clause C09 shares with C15, decided there
+    obs.extend(borrow(prog, tier, "C15", {"randomness-owned"}, "draws-from-own-generator",
+                      "a draw from a process-wide generator is not part of what is saved or handed to the reloaded sampler: the reloaded "
+                      "chain cannot continue as the saved one would have"))
     ts = Typestate(prog)
 
     # ------------------------------------------------------------ Parameter / EpsilonSelector pairs
@@ -1129,6 +1166,7 @@ def run(prog, tier):
             obs.append(_restore_targets(qual(lc, lfn), lfn, var, rel))
             obs.append(_restored_containers(prog, ci, qual(lc, lfn), lfn, var, {dn_} if dn_ else set(), rel))
             obs.append(_save_writes(qual(sc, sfn), sfn, rel))
+            obs.append(_restored_types(prog, ci, qual(lc, lfn), lfn, var, rel))
         obs.append(_derived_consistent(prog, ci, cname, lfn, lc, call, var, rel))
         obs.extend(_ctor_arg_roundtrip(prog, ci, cname, lfn, call, values, rel))
         obs.extend(_rebuilt_object_roundtrip(prog, ci, cname, lfn, var, values, rel))
